@@ -104,7 +104,15 @@ def _norm_result(r):
 
 
 # classes that keep one value in several internal representations: compared through their public accessors
+def _norm_gate_family(g):
+    # the default description lists the tags in set-iteration order; it is derived text unless the user supplied one
+    d = g.description
+    return ("gatefamily", type(g).__name__, g.gate, g.name, None if d == g._default_description() else d,
+            g._ignore_global_phase, g._tags_to_accept, g._tags_to_ignore)
+
+
 NORMALIZE = {
+    "GateFamily": _norm_gate_family,
     "Duration": lambda d: ("picos", d.total_picos()),          # Duration(nanos=38) is stored as [0, 38, 0, 0], read back as picos
     "ResultDict": _norm_result, "EngineResult": _norm_result,  # records <-> measurements, each derived lazily from the other
 }
@@ -163,6 +171,17 @@ def setup(ctx):
     _S["skip"] = skip
     _S["examples"] = None
     _S["corpus_seen"] = 0
+    # keep at most 3 witnesses per mechanism and shard (the worker stores 40 violations per shard in total; a frequent
+    # mechanism must not crowd out a rare one).  Repeats are still counted, as events.
+    counts, orig_fail = {}, ctx.fail
+
+    def fail(mech, msg, **witness):
+        counts[mech] = counts.get(mech, 0) + 1
+        if counts[mech] <= 3:
+            orig_fail(mech, msg, **witness)
+        else:
+            ctx.event("violating-observation-repeat:" + mech)
+    ctx.fail = fail
 
 
 def teardown(ctx):
@@ -203,8 +222,14 @@ def _lenient_ns():
     return _S["lenient"]
 
 
-def _sdiff(a, b):
-    ds = SD.diff(a, b, ignore=LAZY, normalize=NORMALIZE)
+def _sdiff(a, b, via="json"):
+    """Field-by-field differences.  via="json": exact (JSON numbers round-trip exactly, classes are kept);
+    via="repr": 1e-12 relative slack on floats (reprs print arithmetic such as x*np.pi/2) and an equal value
+    spelled through another class (`cirq.Y(q)` for `YPowGate(exponent=1.0).on(q)`) is not a difference."""
+    if via == "repr":
+        ds = SD.diff(a, b, ignore=LAZY, normalize=NORMALIZE, rtol=1e-12, type_mismatch="eq")
+    else:
+        ds = SD.diff(a, b, ignore=LAZY, normalize=NORMALIZE)
     return [d for d in ds if d.field not in LAZY_ANY_CLASS]
 
 
@@ -221,6 +246,22 @@ def _cover(txt):
         cov.add(txt[i + len(key):j])
         i = j
     return cov
+
+
+def _slug(msg):
+    """A stable short form of an exception message (no addresses, numbers or quotes)."""
+    import re
+    m = re.sub(r"0x[0-9a-fA-F]+|[-+]?\d+(\.\d+)?([eE][-+]?\d+)?", "#", msg)
+    m = re.sub(r"[^A-Za-z#]+", "-", m).strip("-")
+    return m[:48]
+
+
+def _where(e):
+    import traceback
+    for fr in reversed(traceback.extract_tb(e.__traceback__)):
+        if fr.filename.startswith(_repo() + os.sep):
+            return "%s:%s" % (os.path.relpath(fr.filename, _repo()), fr.name)
+    return "?"
 
 
 def _digest(txt):
@@ -263,6 +304,12 @@ def _json_tree_diffs(a, b, ctype="<top>", out=None, path=""):
         if len(a) != len(b):
             out.append((ctype, None))
             return out
+        if a != b:
+            # sets are written as lists in iteration order: the same elements in another order are not a difference
+            ka = sorted(json.dumps(e, sort_keys=True) for e in a)
+            kb = sorted(json.dumps(e, sort_keys=True) for e in b)
+            if ka == kb:
+                return out
         for x, y in zip(a, b):
             _json_tree_diffs(x, y, ctype, out, path)
         return out
@@ -271,20 +318,29 @@ def _json_tree_diffs(a, b, ctype="<top>", out=None, path=""):
     return out
 
 
-def _classify(sdiffs, jdiffs, default, eq_held):
-    """Mechanism key for a failed observation, 'explained-by' style: a known key is used only when *every*
-    structural and JSON-level difference belongs to that one known mechanism."""
+def _classify(sdiffs, jdiffs, default, eq_held, via="json"):
+    """Mechanism key for a failed observation, 'explained-by' style.
+
+    A known key (D5/D8/D9) is used only when *every* structural and JSON-level difference belongs to that one known
+    mechanism.  Otherwise, when all differences concern one field of one class, the key names that field
+    ("C11:<Class>-<field>-not-serialized" for the JSON path, "...-lost-by-repr" for the repr path); anything else
+    gets `default`."""
     keys = set()
     for d in sdiffs:
         k = KNOWN_FIELDS.get((d.owner, d.field))
         if k is None:
             if d.field in ("<root>", "<value>") or d.path.endswith("<type>"):
                 return default
-            k = ("C11:%s-%s-not-serialized" if eq_held else "C11:%s-%s-changed") % (d.owner, d.field.lstrip("_"))
+            k = "C11:%s-%s-%s" % (d.owner, d.field.lstrip("_"), "not-serialized" if via == "json" else "lost-by-repr")
         keys.add(k)
     for ct, f in jdiffs:
         k = KNOWN_JSON_FIELDS.get((ct, f))
-        keys.add(k if k is not None else "C11:json-field-changed:%s.%s" % (ct, f))
+        if k is None:
+            # the JSON-level view of a field that the structural view already names
+            if any(d.owner == ct.split(".")[-1] and d.field.lstrip("_") == str(f).lstrip("_") for d in sdiffs):
+                continue
+            k = "C11:json-field-changed:%s.%s" % (ct, f)
+        keys.add(k)
     if len(keys) == 1:
         return keys.pop()
     return default
@@ -308,6 +364,70 @@ def _explain_classical_store(x, y):
 
 
 EXPLAINERS = {"ClassicalDataDictionaryStore": _explain_classical_store}
+
+
+class _EqRaised(Exception):
+    pass
+
+
+def _peq2(a, b):
+    """a == b and b == a as the values define it; _EqRaised when comparing raises."""
+    try:
+        return SD.peq(a, b) and SD.peq(b, a)
+    except Exception as e:  # noqa
+        raise _EqRaised("%s: %s" % (type(e).__name__, str(e)[:160])) from e
+
+
+def _same(a, b):
+    """a == b (both ways) as the values define it; field-by-field when their == raises (reported elsewhere)."""
+    try:
+        return _peq2(a, b)
+    except _EqRaised:
+        return not _sdiff(a, b)
+
+
+def _children(o):
+    """Cirq objects directly stored in `o` (through attributes and plain containers)."""
+    out = []
+
+    def flat(v, depth=0):
+        if depth > 4:
+            return
+        if isinstance(v, (list, tuple, set, frozenset)):
+            for e in v:
+                flat(e, depth + 1)
+        elif isinstance(v, dict):
+            for k, e in v.items():
+                flat(k, depth + 1)
+                flat(e, depth + 1)
+        elif (type(v).__module__ or "").startswith("cirq"):
+            out.append(v)
+    if isinstance(o, (list, tuple, dict, set, frozenset)):
+        flat(o)
+    else:
+        for name, val in SD._attrs(o).items():
+            if not SD.is_cache_attr(name):
+                flat(val)
+    return out
+
+
+def _repr_roundtrips(o):
+    if type(o).__repr__ is object.__repr__:
+        return True
+    try:
+        z = eval(repr(o), dict(_lenient_ns()), {})
+        return SD.peq(z, o) and SD.peq(o, z) and not _sdiff(o, z, "repr")
+    except Exception:  # noqa
+        return False
+
+
+def _repr_culprit(o, depth=0):
+    """The innermost stored object whose own repr does not evaluate back to it."""
+    if depth < 8:
+        for c in _children(o)[:40]:
+            if not _repr_roundtrips(c):
+                return _repr_culprit(c, depth + 1)
+    return o
 
 
 def _diff_txt(diffs):
@@ -458,15 +578,31 @@ def check_value(ctx, v, origin, light=False):
     x = v.obj
     cname = _cls(x)
     wit = dict(origin=origin, gen=v.gen, cls=cname)
-    txt = cirq.to_json(x)
-    _cover(txt)
-    y = cirq.read_json(json_text=txt)
-    txt2 = cirq.to_json(y)
     rx = repr(x)
     wit["repr"] = rx[:700]
+    try:
+        txt = cirq.to_json(x)
+    except Exception as e:  # noqa  (x was accepted by its public constructor: writing it must not fail)
+        ctx.check(False, "json-writable", "C11:to-json-raises:%s:%s" % (type(e).__name__, _slug(str(e))),
+                  "to_json(x) raised %s: %s" % (type(e).__name__, str(e)[:300]), where=_where(e), **wit)
+        return None
+    ctx.ok("json-writable")
+    _cover(txt)
+    try:
+        y = cirq.read_json(json_text=txt)
+    except Exception as e:  # noqa
+        ctx.check(False, "json-readable", "C11:read-json-raises:%s:%s:%s" % (cname, type(e).__name__, _slug(str(e))),
+                  "read_json(to_json(x)) raised %s: %s" % (type(e).__name__, str(e)[:300]), where=_where(e), **wit)
+        return txt
+    ctx.ok("json-readable")
+    txt2 = cirq.to_json(y)
     top_container = isinstance(x, (list, tuple, dict, np.ndarray)) or type(x).__module__.split(".")[0] in ("pandas", "numpy", "builtins")
 
-    eq = SD.peq(y, x) and SD.peq(x, y)
+    eq_raised = None
+    try:
+        eq = _peq2(y, x)
+    except _EqRaised as e:
+        eq, eq_raised = False, str(e)
     sdiffs = _sdiff(x, y)
     jdiffs = [] if txt2 == txt else _json_tree_diffs(json.loads(txt), json.loads(txt2))
 
@@ -477,8 +613,13 @@ def check_value(ctx, v, origin, light=False):
                 return k
         return _classify(sdiffs, jdiffs, default, eq)
 
-    ctx.check(eq, "json-roundtrip-eq", mech("C11:roundtrip-not-equal:" + cname),
-              lambda: "read_json(to_json(x)) != x; got %s ; differences: %s" % (repr(y)[:300], _diff_txt(sdiffs)), **wit)
+    if eq_raised is not None:
+        # the value cannot even be compared with its copy; field-by-field comparison below still judges the round trip
+        ctx.check(False, "json-roundtrip-eq", "C11:eq-raises:" + cname, "comparing x with its JSON copy raised " + eq_raised, **wit)
+        eq = not sdiffs
+    else:
+        ctx.check(eq, "json-roundtrip-eq", mech("C11:roundtrip-not-equal:" + cname),
+                  lambda: "read_json(to_json(x)) != x; got %s ; differences: %s" % (repr(y)[:300], _diff_txt(sdiffs)), **wit)
     if not top_container and not isinstance(x, enum.IntEnum):  # IntEnum members are written as their int (stored corpus: [1, 2])
         ctx.check(type(y) is type(x), "json-roundtrip-type", "C11:roundtrip-type:" + cname,
                   lambda: "type %s became %s" % (type(x).__name__, type(y).__name__), **wit)
@@ -488,18 +629,28 @@ def check_value(ctx, v, origin, light=False):
         ctx.check(hy and hashy == hashx, "json-roundtrip-hash", mech("C11:roundtrip-hash:" + cname),
                   "hash(read_json(to_json(x))) != hash(x)", **wit)
     ry = repr(y)
-    repr_ok = ry == rx
-    if not repr_ok:
+    if ry == rx or type(x).__repr__ is object.__repr__:
+        ctx.ok("json-roundtrip-repr")
+    else:
         # the copy may print the same value in another spelling (Duration(nanos=1) / Duration(picos=1000), a gate given as
-        # a gate / as its GateFamily): then its repr must still describe x
+        # a gate / as its GateFamily).  Judged only when repr(x) itself evaluates back to x (otherwise the repr is at fault,
+        # which is the repr check's business): then repr(copy) must evaluate to x as well.
         try:
-            w = eval(ry, dict(_lenient_ns()), {})
-            repr_ok = SD.peq(w, x) and not _sdiff(x, w)
+            z0 = eval(rx, dict(_lenient_ns()), {})
+            base_ok = SD.peq(z0, x) and not _sdiff(x, z0, "repr")
         except Exception:  # noqa
-            repr_ok = False
-    ctx.check(repr_ok, "json-roundtrip-repr", mech("C11:roundtrip-repr:" + cname),
-              lambda: "repr of the JSON copy no longer describes x: %s" % ry[:400], **wit)
-    ctx.check(txt2 == txt, "json-idempotent", mech("C11:second-generation-json-differs:" + cname),
+            base_ok = False
+        if not base_ok:
+            ctx.reject("roundtrip-repr:repr-of-original-does-not-evaluate-back")
+        else:
+            try:
+                w = eval(ry, dict(_lenient_ns()), {})
+                repr_ok = SD.peq(w, x) and not _sdiff(x, w, "repr")
+            except Exception:  # noqa
+                repr_ok = False
+            ctx.check(repr_ok, "json-roundtrip-repr", mech("C11:roundtrip-repr:" + cname),
+                      lambda: "repr of the JSON copy no longer describes x: %s" % ry[:400], **wit)
+    ctx.check(txt2 == txt or not jdiffs, "json-idempotent", mech("C11:second-generation-json-differs:" + cname),
               lambda: "to_json(read_json(to_json(x))) != to_json(x); fields: %r" % (jdiffs[:4],), **wit)
     # field-by-field: one observation per value, one violation per distinct lost field
     ctx.ok("json-roundtrip-structure")
@@ -532,38 +683,54 @@ def check_value(ctx, v, origin, light=False):
     # repr evaluates back to an equal value (same namespace as the stored .repr files)
     z = None
     foreign = type(x).__module__.split(".")[0] in ("sympy", "pandas", "numpy", "datetime", "builtins")
+    if foreign and not isinstance(x, (list, tuple, dict)):
+        ctx.reject("repr-eval:not-a-cirq-value")  # sympy / pandas / numpy print for humans; no evaluable-repr contract
+        return txt
     if type(x).__repr__ is object.__repr__:
         ctx.reject("repr-eval:class-defines-no-repr")
         return txt
     try:
         z = _ev(rx)
-    except Exception as e:  # noqa
-        if foreign and not isinstance(x, (list, tuple, dict)):
-            ctx.reject("repr-eval:not-a-cirq-value")  # sympy / pandas print for humans; no evaluable-repr contract
-        else:
-            try:
-                z = eval(rx, dict(_lenient_ns()), {})
-                ctx.reject("repr-eval:needs-unqualified-names")  # e.g. `pasqal.ThreeDQubit(..)`, dataclass default reprs
-            except Exception as e2:  # noqa
-                ctx.check(False, "repr-eval-eq", "C11:repr-not-evaluable:%s:%s" % (cname, type(e2).__name__),
-                          "eval(repr(x)) raised %s: %s" % (type(e2).__name__, e2), **wit)
+    except Exception:  # noqa
+        try:
+            z = eval(rx, dict(_lenient_ns()), {})
+            ctx.reject("repr-eval:needs-unqualified-names")  # e.g. `pasqal.ThreeDQubit(..)`, dataclass default reprs
+        except Exception as e2:  # noqa
+            cul = _repr_culprit(x)
+            if type(cul).__repr__ is object.__repr__:
+                ctx.reject("repr-eval:class-defines-no-repr")
+            else:
+                ctx.check(False, "repr-eval-eq", "C11:repr-not-evaluable:%s:%s" % (_cls(cul), type(e2).__name__),
+                          "eval(repr(x)) raised %s: %s; innermost object whose repr does not evaluate back: %s"
+                          % (type(e2).__name__, e2, repr(cul)[:300]), **wit)
     if z is not None:
-        eqz = SD.peq(z, x) and SD.peq(x, z)
-        zdiffs = _sdiff(x, z)
-        ctx.check(eqz, "repr-eval-eq", _classify(zdiffs, [], "C11:repr-eval-not-equal:" + cname, eqz),
-                  lambda: "eval(repr(x)) != x; differences: %s" % _diff_txt(zdiffs), **wit)
-        ctx.ok("repr-eval-structure")
-        seen = set()
-        for d in zdiffs:
-            k = _classify([d], [], "C11:repr-structure:" + cname, eqz)
-            if k in seen:
-                continue
-            seen.add(k)
-            ctx.fail(k, "field %s.%s lost or changed by eval(repr(x)): %s -> %s (path %s); z == x is %s"
-                     % (d.owner, d.field, d.a, d.b, d.path, eqz), **wit)
-        if hx and eqz:
-            hz, hashz = _hashable(z)
-            ctx.check(hz and hashz == hashx, "repr-eval-hash", "C11:repr-eval-hash:" + cname, "hash(eval(repr(x))) != hash(x)", **wit)
+        zdiffs = _sdiff(x, z, "repr")
+        try:
+            eqz = _peq2(z, x)
+        except _EqRaised:
+            eqz = not zdiffs  # the raising == is reported once, under json-roundtrip-eq
+        if not eqz:
+            cul = _repr_culprit(x)
+            known = _classify(zdiffs, [], None, eqz, "repr") if zdiffs else None
+            key = known if known in KNOWN_FIELDS.values() else "C11:repr-eval-not-equal:" + _cls(cul)
+            ctx.check(False, "repr-eval-eq", key,
+                      lambda: "eval(repr(x)) != x; differences: %s; innermost object whose repr does not evaluate back: %s"
+                              % (_diff_txt(zdiffs), repr(cul)[:300]), **wit)
+        else:
+            ctx.ok("repr-eval-eq")
+            # silent loss: equal by ==, yet a stored field differs (one violation per distinct field)
+            ctx.ok("repr-eval-structure")
+            seen = set()
+            for d in zdiffs:
+                k = _classify([d], [], "C11:repr-structure:" + cname, eqz, "repr")
+                if k in seen:
+                    continue
+                seen.add(k)
+                ctx.fail(k, "field %s.%s is lost or changed by eval(repr(x)) although the result compares equal: %s -> %s (path %s)"
+                         % (d.owner, d.field, d.a, d.b, d.path), **wit)
+            if hx:
+                hz, hashz = _hashable(z)
+                ctx.check(hz and hashz == hashx, "repr-eval-hash", "C11:repr-eval-hash:" + cname, "hash(eval(repr(x))) != hash(x)", **wit)
     return txt
 
 
@@ -589,14 +756,20 @@ def _val_before_ref(ctx, txt, wit):
 
 
 # ====================================================================== (1) corpus
+# Stored examples that are not mutated: their constructors take raw arrays without checking that they are mutually
+# consistent (a perturbed `num_qubits` next to unchanged arrays is not a value of the class), or the file is very large.
+MUTANT_SKIP = {"CliffordTableau", "CliffordGate", "SingleQubitCliffordGate", "StabilizerStateChForm", "CliffordState",
+               "GateTabulation", "TwoQubitGateTabulation", "SycamoreTargetGateset"}
+
+
 def _examples():
-    """name -> (repr text) of every stored plain example (for the mutation section)."""
+    """Stored plain examples (for the mutation section)."""
     if _S["examples"] is None:
         ex = []
         for f in FILES:
-            if f["inward"] or f["name"] in _S["skip"].get(f["pkg"], ()):
+            if f["inward"] or f["name"] in _S["skip"].get(f["pkg"], ()) or f["name"] in MUTANT_SKIP:
                 continue
-            if os.path.exists(f["repr"]):
+            if os.path.exists(f["repr"]) and os.path.getsize(f["repr"]) < 40000:
                 ex.append(f)
         _S["examples"] = ex
     return _S["examples"]
@@ -626,11 +799,11 @@ def sec_corpus(ctx, rng, case):
         ctx.check(False, "corpus:read==repr", "C11:corpus-length:" + f["name"], "document and repr lists differ in length", **wit)
         return
     for i, (a, b) in enumerate(pairs):
-        ok = SD.peq(a, b) and SD.peq(b, a)
+        ok = _same(a, b)
         sd = _sdiff(b, a) if ok else []
         ctx.check(ok, "corpus:read==repr", "C11:corpus-document-reads-differently:" + f["name"],
                   lambda: "element %d of %s reads as %s, its .repr says %s" % (i, wit["file"], repr(a)[:300], repr(b)[:300]), **wit)
-        if ok and not isinstance(b, (list, tuple, dict)):
+        if ok and not isinstance(b, (list, tuple, dict, enum.IntEnum)):
             ctx.check(type(a) is type(b), "corpus:type", "C11:corpus-type:" + f["name"], "", **wit)
         ctx.ok("corpus:structure")
         for d in sd:
@@ -639,10 +812,10 @@ def sec_corpus(ctx, rng, case):
     if not f["inward"]:
         txt = cirq.to_json(obj_r)
         back = cirq.read_json(json_text=txt)
-        ctx.check(SD.peq(back, obj_r), "corpus:rewrite-reads-back", "C11:corpus-rewrite:" + f["name"],
+        ctx.check(_same(back, obj_r), "corpus:rewrite-reads-back", "C11:corpus-rewrite:" + f["name"],
                   "to_json of the .repr value does not read back equal", **wit)
         gz = cirq.read_json_gzip(gzip_raw=cirq.to_json_gzip(obj_r))
-        ctx.check(SD.peq(gz, obj_r), "corpus:gzip-reads-back", "C11:corpus-gzip:" + f["name"], "gzip round trip differs", **wit)
+        ctx.check(_same(gz, obj_r), "corpus:gzip-reads-back", "C11:corpus-gzip:" + f["name"], "gzip round trip differs", **wit)
         # the stored example also goes through the full per-value history
         for i, (a, b) in enumerate(pairs[:6]):
             check_value(ctx, JV.Val(b, "corpus:" + f["name"]), "corpus", light=False)
@@ -662,9 +835,14 @@ def sec_generated(ctx, rng, case):
     name, fn = gens[_gen_index(case, len(gens))]
     v = fn(rng)
     txt = check_value(ctx, v, "typed")
+    if txt is None:
+        ctx.distinct(("gen-unwritable", name, repr(v.obj)[:200]), nontrivial=True)
+        return
     if case % 7 == 0:
         gz = cirq.read_json_gzip(gzip_raw=cirq.to_json_gzip(v.obj))
-        ctx.check(SD.peq(gz, v.obj), "gzip-roundtrip-eq", "C11:gzip-roundtrip:" + _cls(v.obj), "", gen=v.gen, repr=repr(v.obj)[:400])
+        plain = cirq.read_json(json_text=txt)
+        ctx.check(_same(gz, plain) and not _sdiff(plain, gz), "gzip-roundtrip-eq", "C11:gzip-differs-from-plain-json:" + _cls(v.obj),
+                  "read_json_gzip(to_json_gzip(x)) differs from read_json(to_json(x))", gen=v.gen, repr=repr(v.obj)[:400])
     _val_before_ref(ctx, txt, dict(gen=v.gen))
     ctx.distinct(("gen", _digest(txt)), nontrivial='"cirq_type"' in txt)
     ctx.sample({"generator": name, "repr": repr(v.obj)[:200]})
@@ -748,11 +926,13 @@ def sec_composed(ctx, rng, case):
 
     v = JV.compose(rng, _S["gens"])
     txt = check_value(ctx, v, "composed", light=True)
+    if txt is None:
+        return
     wit = dict(gen=v.gen, repr=repr(v.obj)[:600])
     order = _val_before_ref(ctx, txt, wit)
     y = cirq.read_json(json_text=txt)
     fx, fy = _collect_frozen(v.obj, []), _collect_frozen(y, [])
-    ok = len(fx) == len(fy) and all(SD.peq(a, b) and not _sdiff(a, b) for a, b in zip(fx, fy))
+    ok = len(fx) == len(fy) and all(_same(a, b) and not _sdiff(a, b) for a, b in zip(fx, fy))
     ctx.check(ok, "shared-subcircuits-survive", "C11:shared-frozen-circuit",
               "the FrozenCircuits reachable in the copy are not the ones of the original (%d vs %d)" % (len(fx), len(fy)), **wit)
     if v.info and v.info.get("shared"):
@@ -760,10 +940,10 @@ def sec_composed(ctx, rng, case):
         nref = sum(1 for t, _ in order if t == "REF")
         distinct_ids = len({id(c) for c in fx})
         # every FrozenCircuit object is written in full at most once; further occurrences are REFs
-        ctx.check(1 <= nval <= distinct_ids and nval + nref >= len(fx) - 0 and nref >= 1, "val-ref-memo", "C11:val-ref-memo",
+        ctx.check(1 <= nval <= distinct_ids and nref >= 1, "val-ref-memo", "C11:val-ref-memo",
                   "VAL=%d REF=%d for %d occurrences of %d distinct FrozenCircuit objects" % (nval, nref, len(fx), distinct_ids), **wit)
         fc = v.info["fc"]
-        same = [c for c in fy if SD.peq(c, fc)]
+        same = [c for c in fy if _same(c, fc)]
         ctx.check(len(same) >= 2 and all(not _sdiff(fc, c) for c in same), "shared-subcircuit-equal-at-all-depths",
                   "C11:shared-frozen-circuit-depth", "the shared FrozenCircuit is not equal at all of its occurrences", **wit)
     ctx.distinct(("comp", _digest(txt)), nontrivial='"cirq_type"' in txt)
@@ -783,7 +963,7 @@ def _near_duplicates(rng, case):
     a = fn(np.random.default_rng(seed)).obj
     b = fn(np.random.default_rng(seed)).obj  # same constructor arguments, built independently
     pool += [a, b]
-    dup = [0, 1]
+    dup = [a, b]
     try:
         c = _ev(repr(a))
         pool.append(c)
@@ -794,7 +974,7 @@ def _near_duplicates(rng, case):
     except Exception:  # noqa
         pass
     pool.append(copy.deepcopy(a))
-    dup.append(len(pool) - 1)
+    dup.append(pool[-1])
     dup_groups.append(dup)
     for k in range(3):
         pool.append(fn(np.random.default_rng(seed + 1 + k)).obj)
@@ -817,7 +997,10 @@ def _near_duplicates(rng, case):
 
 
 def _eq(a, b):
-    r = a == b
+    try:
+        r = a == b
+    except Exception:  # noqa  (reported by section `generated` as C11:eq-raises)
+        return False
     if isinstance(r, np.ndarray):
         return bool(r.all())
     return r is not NotImplemented and bool(r)
@@ -847,8 +1030,6 @@ def sec_eqhash(ctx, rng, case):
             if eqm[i][j] and hs[i][0] and hs[j][0]:
                 ctx.check(hs[i][1] == hs[j][1], "eq=>hash", "C11:equal-values-different-hash:%s/%s" % tuple(sorted((_cls(pool[i]), _cls(pool[j])))),
                           "a == b but hash(a) != hash(b)", **wit2)
-            if eqm[i][j]:
-                ctx.check(hs[i][0] == hs[j][0], "eq=>same-hashability", "C11:equal-values-differ-in-hashability:" + _cls(pool[i]), "", **wit2)
     for i, j, k in itertools.combinations(range(n), 3):
         for a, b, c in ((i, j, k), (j, i, k), (i, k, j)):
             if eqm[a][b] and eqm[b][c]:
@@ -856,14 +1037,14 @@ def sec_eqhash(ctx, rng, case):
                           a=repr(pool[a])[:200], b=repr(pool[b])[:200], c=repr(pool[c])[:200])
     # values built twice from the same constructor arguments must be equal (independent knowledge of equality)
     for grp in dup_groups:
-        grp = [g for g in grp if g < n]
-        for i, j in itertools.combinations(grp, 2):
-            same = SD.peq(pool[i], pool[j])
-            ctx.check(same, "rebuilt-equal", "C11:same-arguments-not-equal:" + _cls(pool[i]),
-                      "two values built from the same arguments (or a deepcopy) are not equal", gen=name, a=repr(pool[i])[:300])
-            if same and hs[i][0]:
-                ctx.check(hs[i][1] == hs[j][1], "rebuilt-equal-hash", "C11:same-arguments-different-hash:" + _cls(pool[i]), "", gen=name,
-                          a=repr(pool[i])[:300])
+        for u, w in itertools.combinations(grp, 2):
+            same = _same(u, w)
+            ctx.check(same, "rebuilt-equal", "C11:same-arguments-not-equal:" + _cls(u),
+                      "two values built from the same arguments (or a deepcopy) are not equal", gen=name, a=repr(u)[:300])
+            hu, hw = _hashable(u), _hashable(w)
+            if same and hu[0] and hw[0]:
+                ctx.check(hu[1] == hw[1], "rebuilt-equal-hash", "C11:same-arguments-different-hash:" + _cls(u), "", gen=name,
+                          a=repr(u)[:300])
     ctx.distinct(("eqhash", name, repr(pool[0])[:300]), nontrivial=sum(eqm[0]) >= 2)
     ctx.sample({"generator": name, "pool": n, "equal_pairs": sum(sum(r) for r in eqm) - n})
 
@@ -919,28 +1100,44 @@ def sec_qidorder(ctx, rng, case):
 
 
 # ====================================================================== (5) copies and pickles, as a history
+def _unpicklable_culprit(o, depth=0):
+    if depth < 8:
+        for c in _children(o)[:40]:
+            try:
+                pickle.dumps(c)
+            except Exception:  # noqa
+                return _unpicklable_culprit(c, depth + 1)
+    return o
+
+
 def _copy_history(ctx, x, gen):
     cname = _cls(x)
     wit = dict(gen=gen, repr=repr(x)[:500], cls=cname)
     hx, hashx = _hashable(x)  # first: populates any cached hash
     for how, f in (("copy", copy.copy), ("deepcopy", copy.deepcopy)):
         c = f(x)
-        ok = SD.peq(c, x) and SD.peq(x, c)
+        ok = _same(c, x)
         d = _sdiff(x, c) if ok else []
-        ctx.check(ok and not d and type(c) is type(x), "copy-eq", "C11:%s-not-equal:%s" % (how, cname),
-                  lambda: "%s(x) != x %s" % (how, _diff_txt(d)), **wit)
+        ctx.check(ok and type(c) is type(x), "copy-eq", "C11:%s-not-equal:%s" % (how, cname), "%s(x) != x" % how, **wit)
+        if ok:
+            ctx.check(not d, "copy-structure", "C11:%s-loses-field:%s" % (how, ",".join(sorted({"%s.%s" % (e.owner, e.field) for e in d}))[:80]),
+                      lambda: "%s(x) compares equal but differs in stored fields: %s" % (how, _diff_txt(d)), **wit)
         if hx and ok:
             hc, hashc = _hashable(c)
             ctx.check(hc and hashc == hashx and {x: 1}.get(c) == 1, "copy-hash", "C11:%s-hash:%s" % (how, cname), "", **wit)
     try:
         blob = pickle.dumps(x)
     except (pickle.PicklingError, AttributeError, TypeError) as e:
-        ctx.check(False, "pickle-eq", "C11:not-picklable:" + cname, "pickle.dumps(x) raised %s: %s" % (type(e).__name__, e), **wit)
+        cul = _unpicklable_culprit(x)
+        ctx.check(False, "pickle-eq", "C11:not-picklable:" + _cls(cul), "pickle.dumps(x) raised %s: %s" % (type(e).__name__, e), **wit)
         return None, hx
     p = pickle.loads(blob)
-    ok = SD.peq(p, x) and SD.peq(x, p)
+    ok = _same(p, x)
     d = _sdiff(x, p) if ok else []
-    ctx.check(ok and not d and type(p) is type(x), "pickle-eq", "C11:pickle-not-equal:" + cname, lambda: "pickle round trip differs %s" % _diff_txt(d), **wit)
+    ctx.check(ok and type(p) is type(x), "pickle-eq", "C11:pickle-not-equal:" + cname, "pickle round trip differs", **wit)
+    if ok:
+        ctx.check(not d, "pickle-structure", "C11:pickle-loses-field:%s" % ",".join(sorted({"%s.%s" % (e.owner, e.field) for e in d}))[:80],
+                  lambda: "pickle round trip compares equal but differs in stored fields: %s" % _diff_txt(d), **wit)
     if hx and ok:
         hp, hashp = _hashable(p)
         ctx.check(hp and hashp == hashx and {x: 1}.get(p) == 1, "pickle-hash", "C11:pickle-hash:" + cname, "", **wit)
@@ -980,7 +1177,7 @@ def sec_pickle_child(ctx, rng, case):
         rx = repr(x)
         try:
             z = _ev(rx)
-            if not SD.peq(z, x):
+            if not _same(z, x):
                 continue  # judged in section `generated`
         except Exception:  # noqa
             continue
@@ -1050,9 +1247,9 @@ def sec_pickle_child(ctx, rng, case):
 
 SECTIONS = [
     ("corpus", sec_corpus, len(FILES), len(FILES), 1.6),
-    ("generated", sec_generated, 9000, 220000, 4.0),
-    ("mutants", sec_mutants, 3600, 80000, 2.0),
-    ("composed", sec_composed, 1400, 30000, 1.2),
+    ("generated", sec_generated, 12000, 220000, 4.0),
+    ("mutants", sec_mutants, 4200, 80000, 2.0),
+    ("composed", sec_composed, 1800, 30000, 1.2),
     ("eqhash", sec_eqhash, 1400, 30000, 1.2),
     ("qidorder", sec_qidorder, 2800, 60000, 0.5),
     ("copies", sec_copies, 2800, 60000, 1.0),
